@@ -104,7 +104,8 @@ func panicSite(stack string) string {
 	for _, l := range lines {
 		l = strings.TrimSpace(l)
 		if strings.HasPrefix(l, "github.com/btcsuite/btcwallet") || strings.HasPrefix(l, "go.etcd.io/bbolt") {
-			if i := strings.Index(l, "("); i > 0 {
+			// drop the argument list: "pkg.(*T).Method(0x..., ...)" -> "pkg.(*T).Method"
+			if i := strings.LastIndex(l, "("); i > 0 {
 				l = l[:i]
 			}
 			if j := strings.LastIndex(l, "/"); j >= 0 {
